@@ -194,16 +194,14 @@ def term_loops(fx):
         if not norm(nm).startswith("engine::eval::") or "::tests::" in nm or b.kind == "Closure":
             continue
         live = b.live_blocks()
-        for nb, t in b.calls():
-            cn = norm(callee_name(t) or "")
-            if not (cn.endswith("Iterator>::next") or cn.endswith("Iterator::next")):
-                continue
+        nexts = [(nb, t) for nb, t in b.calls() if norm(callee_name(t) or "").endswith("Iterator>::next") or norm(callee_name(t) or "").endswith("Iterator::next")]
+        for nb, t in nexts:
             loop = {x for x in b.reachable(nb) if nb in b.reachable(x)} & live
             if len(loop) < 2:
                 continue
-            # the iterator itself (followed through the reborrows handed to next())
+            # the iterators themselves - of this loop and of loops nested in it (followed through the reborrows handed to next())
             iters = set()
-            dq = [a["pl"]["l"] for a in t["args"] if "pl" in a]
+            dq = [a["pl"]["l"] for (_nb2, t2) in nexts for a in t2["args"] if "pl" in a]
             while dq:
                 l = dq.pop()
                 if l in iters:
@@ -333,6 +331,34 @@ def rule_mirror(fx, rep):
                 p = enum_name(i[2][0])
         if p and isinstance(v, tuple) and v[0] == "call":
             ptab[p] = (v[1].split("::")[-1], v[2][0][1] if isinstance(v[2][0], tuple) and v[2][0][0] == "constpath" else show(v[2][0]))
+    if not ptab:
+        # per-player loop form: `let pst = match player { White => white_pst(D), Black => black_pst(D) }; TABLE[player.array_idx()] = pst`
+        pvars = {v["discr"]: v["name"] for v in fx.adt("player::Player")["variants"]}
+        ptrs = {s0["lhs"]["l"] for bb0, j0, s0 in pin.stmts(live_only=False) if s0["k"] == "assign" and s0["rv"]["k"] == "use" and s0["rv"]["op"].get("k") == "const" and
+                norm(s0["rv"]["op"].get("static", "")).endswith("pawn_structure::PASSED_PAWN_PST")}
+        for bb0, j0, s0 in pin.stmts():
+            if not (s0["k"] == "assign" and s0["lhs"]["l"] in ptrs and s0["lhs"].get("p") and s0["lhs"]["p"][0] == "*" and s0["rv"]["k"] == "use" and "pl" in s0["rv"]["op"]):
+                continue
+            idxs = [pin.expr({"l": p0["idx"], "p": []}, expand_named=True, at=bb0) for p0 in s0["lhs"]["p"] if isinstance(p0, dict) and "idx" in p0]
+            who = [deep_strip(i[2][0]) for i in idxs if isinstance(i, tuple) and i[0] == "call" and i[1].endswith("Player::array_idx")]
+            if len(who) != 1:
+                continue
+            vl = s0["rv"]["op"]["pl"]["l"]
+            for _ in range(4):  # follow plain copies back to the local the `match` assigns
+                ds = pin.defs().get(vl, [])
+                if len(ds) == 1 and ds[0][0] == "stmt" and ds[0][3]["rv"]["k"] == "use" and "pl" in ds[0][3]["rv"]["op"] and not ds[0][3]["rv"]["op"]["pl"].get("p"):
+                    vl = ds[0][3]["rv"]["op"]["pl"]["l"]
+                else:
+                    break
+            for d in pin.defs().get(vl, []):
+                if d[0] != "call":
+                    continue
+                for (ge, pol, w) in guard_conditions(pin, d[1], expand_named=True):
+                    g = deep_strip(ge)
+                    if isinstance(g, tuple) and g[0] == "discr" and deep_strip(g[1]) == who[0] and isinstance(pol, int) and pvars.get(pol):
+                        a0 = pin.expr(d[2]["args"][0], expand_named=True, at=d[1]) if d[2]["args"] else None
+                        a0 = deep_strip(a0) if a0 is not None else None
+                        ptab[pvars[pol]] = (norm(callee_name(d[2]) or "").split("::")[-1], a0[1] if isinstance(a0, tuple) and a0 and a0[0] == "constpath" else show(a0))
     n += 1
     good = ptab.get("White", (None,))[0] == "white_pst" and ptab.get("Black", (None,))[0] == "black_pst" and ptab["White"][1] == ptab["Black"][1]
     rep.obligation(good)
